@@ -2,6 +2,7 @@ package props
 
 import (
 	"fmt"
+	"go/token"
 	"sort"
 	"strings"
 
@@ -262,7 +263,7 @@ func runC05(c *Ctx) {
 		"Not decided: that the mutators jointly preserve the invariant over all histories (an inductive argument), quiescent-point claims."
 	r.Rule("who-writes", "table and link fields are written only by the table mutators", 9)
 	r.Rule("locked", "table mutations hold the session mutex for writing", 8)
-	r.Rule("pairing", "creation and deletion keep index, link and list together", 8)
+	r.Rule("pairing", "creation and deletion keep index, link and list together", 9)
 	r.Rule("online", "MAC entry online flag follows its hosts", 2)
 
 	lib := c.P.LibFunctions()
@@ -384,6 +385,47 @@ func runC05(c *Ctx) {
 			add("creation index", idx, "Table[addr.IP] = host", "the new host is not stored under Table[addr.IP]")
 			add("creation list", list, "entry.HostList = append(entry.HostList, host) for the same entry", "the new host is not appended to the host list of findOrCreate(addr.MAC)")
 		}
+	}
+	if fn := c.A.Method("", "Session", "findOrCreateHostWithLock"); fn != nil {
+		// when the address is already indexed under another MAC (host != nil on the slow path), the previous owner is
+		// deleted (unlinked from its MAC entry) on every path before the slot is overwritten
+		var takeover *ssa.BasicBlock
+		var update ssa.Instruction
+		core.EachInstr(fn, func(i ssa.Instruction) {
+			switch t := i.(type) {
+			case *ssa.If:
+				if norm(t.Cond) == "(local(host)!=nil)" || norm(t.Cond) == "!(local(host)==nil)" {
+					takeover = i.Block().Succs[0]
+				}
+				if bo, ok := t.Cond.(*ssa.BinOp); ok && norm(bo.X) == "local(host)" && norm(bo.Y) == "nil" {
+					if bo.Op == token.NEQ {
+						takeover = i.Block().Succs[0]
+					} else if bo.Op == token.EQL {
+						takeover = i.Block().Succs[1]
+					}
+				}
+			case *ssa.MapUpdate:
+				if strings.HasSuffix(norm(t.Map), "HostTable.Table") {
+					update = i
+				}
+			}
+		})
+		st := core.Violated
+		det := "the duplicate-address branch (host != nil) or the index update was not found"
+		if takeover != nil && update != nil && len(takeover.Instrs) > 0 {
+			isDel := func(j ssa.Instruction) bool {
+				cj, ok := j.(ssa.CallInstruction)
+				return ok && strings.HasSuffix(core.CalleeName(cj), "Session).deleteHost") && norm(cj.Common().Args[1]) == "local(addr).IP"
+			}
+			first := takeover.Instrs[0]
+			if isDel(first) || !reachesWithout(first, update, isDel) {
+				st, det = core.Proved, ""
+			} else {
+				det = "when the address is already indexed for another MAC, a path reaches Table[addr.IP] = host without deleteHost(addr.IP): the previous owner stays linked under its MAC entry while the index points to the new host"
+			}
+		}
+		r.Add(core.Obligation{Rule: "pairing", Key: "pairing address takeover deletes the previous owner first", Func: core.FuncName(fn), Pos: c.P.Pos(fn.Pos()), Status: st,
+			Basis: "every path from host != nil to the index update passes deleteHost(addr.IP)", Detail: det})
 	}
 	if fn := c.A.Method("", "Session", "deleteHost"); fn != nil {
 		unl, del := false, false
@@ -591,6 +633,25 @@ func runC06(c *Ctx) {
 		}
 		r.Add(core.Obligation{Rule: "snapshot", Key: "snapshot notify is silent unless dirty", Func: core.FuncName(fn), Pos: c.P.Pos(fn.Pos()), Status: st,
 			Basis: "return under !Host.dirty; every send under Host.dirty", Detail: fmt.Sprintf("early return=%v sends under dirty=%v", ok, sendUnderDirty)})
+		// the superseded addresses are gathered under the same predicate that marked them in onlineTransition
+		r.Rule("gather", "superseded IPv4 addresses are collected for the offline notification", 1)
+		nG := 0
+		core.EachInstr(fn, func(i ssa.Instruction) {
+			call, ok := isBuiltinCall(i, "append")
+			if !ok || call.Type().String() != "[]*github.com/irai/packet.Host" {
+				return
+			}
+			nG++
+			requireGuards(c, "gather", "notify offline list", i, []guardReq{
+				{"the frame is an online transition", `^\(packet\.Frame\)\.onlineTransition\(local\(frame\)\)$`},
+				{"the host that came online is IPv4 (its tracked address, as in onlineTransition)", `^\(net/netip\.Addr\)\.Is4\(local\(frame\)\.Host\.Addr\.IP\)$`},
+				{"the sibling is offline", `^!.*HostList\[\(φ\+1\)\]\.Online$`},
+				{"the sibling has a pending change", `HostList\[\(φ\+1\)\]\.dirty$`},
+			})
+		})
+		if nG == 0 {
+			r.Add(core.Obligation{Rule: "gather", Key: "gather notify offline list", Func: core.FuncName(fn), Status: core.Violated, Detail: "notify does not collect superseded addresses"})
+		}
 		// order
 		var lastOff, online ssa.Instruction
 		for _, s := range callsIn(fn, nameIs("makeOffline")) {
